@@ -132,10 +132,12 @@ class VK:
             if b.get("sigint_while_running"):
                 self.abort_on = k
         if unrelated:
+            # a child of the Conductor process that is not one of its tasks (e.g. inherited across exec); `unrelated`
+            # may give its wait status (default 0)
             p = VProc(999)
             p.unrelated = True
             p.key = "<unrelated>"
-            p.behaviour = {"status": 0}
+            p.behaviour = {"status": 0 if unrelated is True else int(unrelated)}
             self.procs[999] = p
 
     # ------------------------------------------------------------------ helpers
